@@ -114,7 +114,7 @@ def h_tr(ctx, cfg):
     before = storage(base, th0) + ss0
     rz = []
     with stubbed(_stubs(ctx, crop, rz)):
-        tr, trpns, trpot, nc, irrnet = M.transpiration(prof, n, 0.1, crop, method, smt, ic, et0, co2, gs, gdd)
+        tr, trpns, trpot, nc, irrnet = M.transpiration(prof, n, max(0.1, float(cfg["dzs"][0])), crop, method, smt, ic, et0, co2, gs, gdd)   # Soil.z_top = max(z_top, dz[0]) as the Soil class sets it
     after = storage(base, nc.th) + nc.surface_storage
     ctx.out("Tr", tr); ctx.out("TrPot", trpot); ctx.out("TrPot_NS", trpns); ctx.out("IrrNet", irrnet); ctx.out("th", nc.th); ctx.out("ss", nc.surface_storage)
     ctx.prove("C01:transpiration balance S'+ss'=S+ss-Tr+IrrNet", approx(after, before - tr + irrnet, 1e-8))
